@@ -187,6 +187,7 @@ let session (cs : cmdset) (handler : nat -> n list -> n list list -> hop list) c
     | "x" -> if arg = "off" then (fail_at := -1; perm := false)
              else let (k, mode) = split_once ':' arg in
                fail_at := int_of_nat !st.sk.calls + int_of_string k; perm := (mode = "perm")
+    | "k" -> ()     (* which ErrorKind the sink's error reports: no business of the model *)
     | "y" -> ()     (* the sink accepts short writes only: invisible to the model, which speaks about the bytes written *)
     | _ -> failwith "ses op")
     (List.filter (fun s -> s <> "") (split_on ';' ops));
@@ -444,7 +445,7 @@ let aspec line =
                   | Some ev -> let (a', calls) = astep !feats cs handler_raw cap hc !a ev in a := a'; emit calls
                   | None -> emit [])) (unhex arg)
       | "w" | "p" -> emit []
-      | "y" -> ()
+      | "y" | "k" -> ()
       | _ -> failwith "aspec op")
       (List.filter (fun s -> s <> "") (split_on ';' ops));
     String.concat " ; " (List.rev !out)
